@@ -28,10 +28,10 @@ type Prog struct {
 	Fset  *token.FileSet
 	funcs map[string]*ssa.Function // canonical short name -> function
 	// RepoFuncs is every function (incl. anonymous) whose package is in the module.
-	RepoFuncs    []*ssa.Function
+	RepoFuncs []*ssa.Function
 	// AllFuncs: RepoFuncs plus the helpers the pinned tree did not have, which the rule tables see
 	// only as part of their callers (absorb.go); the engines that must cover every function use this.
-	AllFuncs []*ssa.Function
+	AllFuncs     []*ssa.Function
 	byPkg        map[string]*packages.Package
 	fieldWriters map[string]map[*ssa.Function]bool // tn.field -> functions that may (transitively) store it
 	lineWritesBy map[*ssa.Function][]ssa.Instruction
